@@ -126,7 +126,7 @@ theorem tokensLoopOpsB_sim (dia : Dialect) (mf : Nat) (pol : Policy) (ops : Ops)
           · rw [if_neg htrim, if_neg htrim]
             by_cases hcol : ops.colon = true ∧ (t.ty = .key ∨ t.ty = .tkey)
             · rw [if_pos hcol, if_pos hcol]
-              have hk := r7.2 (by rw [hty]; exact hcol.2)
+              have hk := r7.2.1 (by rw [hty]; exact hcol.2)
               have sp := pushColonB_spec mf s' (altOfB t.ty) g' hk
               have cg := consumeToken_good sp.1
               have halt : altOfB t.ty = Parser.altOf t.ty := rfl
